@@ -80,7 +80,10 @@ func c14Domains(e *domEnv) []*msgDom {
 	ds = append(ds, &msgDom{Name: "aol.MsgAddRecordRequest", New: func() sdk.Msg { return &aoltypes.MsgAddRecordRequest{} }, Fields: []fdom{
 		sv("topic_name", func(m sdk.Msg, v string) { m.(*aoltypes.MsgAddRecordRequest).TopicName = v }, "a", "b"),
 		bv("key", func(m sdk.Msg, v []byte) { m.(*aoltypes.MsgAddRecordRequest).Key = v }, "", "x", "y"),
-		bv("value", func(m sdk.Msg, v []byte) { m.(*aoltypes.MsgAddRecordRequest).Value = v }, "", "x", "y"),
+		bv("value", func(m sdk.Msg, v []byte) { m.(*aoltypes.MsgAddRecordRequest).Value = v }, "", "x", "y",
+			// values that are themselves JSON (equivalent documents must still be different messages), and a JSON string that
+			// spells the base64 of another value
+			`{"a":1}`, `{"a": 1}`, `{"a":1,"a":2}`, `{"a":2}`, `9007199254740993`, `9007199254740992`, `"eA=="`, `"x"`, `null`, `[]`),
 		sv("writer_address", func(m sdk.Msg, v string) { m.(*aoltypes.MsgAddRecordRequest).WriterAddress = v }, W, B),
 		sv("owner_address", func(m sdk.Msg, v string) { m.(*aoltypes.MsgAddRecordRequest).OwnerAddress = v }, A, B),
 		sv("fee_payer_address", func(m sdk.Msg, v string) { m.(*aoltypes.MsgAddRecordRequest).FeePayerAddress = v }, "", F, A),
